@@ -285,7 +285,7 @@ func (w *world) apply(stim string, f func()) {
 			if strings.HasPrefix(l.subject, "conn.") {
 				continue
 			}
-			rec.Obs = append(rec.Obs, "Q "+w.absSubject(l.subject)+" "+absPayload(l.subject, l.payload, w.cname))
+			rec.Obs = append(rec.Obs, "Q "+w.absSubject(l.subject)+" "+w.absSubject(absPayload(l.subject, l.payload, w.cname)))
 			w.mon.onRequest(l)
 		case "sub":
 			if strings.HasPrefix(l.subject, "conn.") {
@@ -440,7 +440,7 @@ func (w *world) answer(r *mockReq, label string, data []byte, err error) {
 		if o.id == r.id {
 			break
 		}
-		if o.subject == r.subject && absPayload(o.subject, o.payload, w.cname) == absPayload(r.subject, r.payload, w.cname) {
+		if o.subject == r.subject && w.absSubject(absPayload(o.subject, o.payload, w.cname)) == w.absSubject(absPayload(r.subject, r.payload, w.cname)) {
 			occ++
 		}
 	}
@@ -448,7 +448,7 @@ func (w *world) answer(r *mockReq, label string, data []byte, err error) {
 		return
 	}
 	w.mon.onAnswer(r, label, data, err)
-	w.apply(fmt.Sprintf("answer %s %s %s #%d", w.absSubject(r.subject), absPayload(r.subject, r.payload, w.cname), label, occ), func() {
+	w.apply(fmt.Sprintf("answer %s %s %s #%d", w.absSubject(r.subject), w.absSubject(absPayload(r.subject, r.payload, w.cname)), label, occ), func() {
 		r.cb(r.subject, data, err)
 	})
 }
@@ -499,7 +499,7 @@ func (w *world) snapshotLines() []string {
 		if len(lk) > 0 {
 			parts = append(parts, "links="+strings.Join(lk, ","))
 		}
-		out = append(out, strings.Join(parts, " "))
+		out = append(out, w.absSubject(strings.Join(parts, " ")))
 	}
 	conns := w.serv.VerifSnapshot()
 	sort.Slice(conns, func(i, j int) bool { return w.cname(conns[i].CID) < w.cname(conns[j].CID) })
